@@ -196,6 +196,10 @@ func fetchDiamonds(repo string, store storage.Store, settings Settings,
 	doneWithKeysChan chan<- struct{}, doneChan <-chan struct{}, wg *sync.WaitGroup) {
 	defer func() {
 		close(batchChan)
+		// the merging stage upstream may be about to hand over one more batch of keys: receive
+		// whatever it still sends, or it would block for ever and the listing would never end
+		for range keysChan {
+		}
 		wg.Done()
 	}()
 
